@@ -46,6 +46,7 @@ from .proglib import D, P
 
 INT_KINDS = ("int",)
 OPT_KEYS = ("oa", "ob", "oc")
+SCOPES = ("NONE", "CSE", "BACKEND")
 KINDS = ("int", "list", "tuple", "dict", "nt", "dc")
 
 ALL_FEATURES = {
@@ -256,6 +257,8 @@ class Gen:
                                     200 + ch.choice(3, "def-export-val")}
                 if ch.coin(0.1, "def-prov-false"):
                     t.options["prov"] = False
+                if ch.coin(0.2, "def-cache-scope"):
+                    t.options["cache_scope"] = SCOPES[ch.choice(3, "def-cache-scope-val")]
             if cfg.task_options and ch.coin(cfg.p_task_option, "topt?"):
                 t.options.update(cfg.task_options[ch.choice(len(cfg.task_options), "topt")])
         # Special recover tasks are appended on demand.
@@ -472,6 +475,10 @@ class Gen:
                 opts["export"] = {OPT_KEYS[ch.choice(3, "call-export-key")]: optval()}
                 if opts.get("options") and ch.coin(0.5, "export-first"):
                     opts["export_first"] = True
+            if ch.coin(0.15, "call-cache-scope?"):
+                # the cache scope as one more option set at call time or exported at call time
+                grp = "options" if ch.coin(0.6, "call-cache-scope-as-option") else "export"
+                opts.setdefault(grp, {})["cache_scope"] = SCOPES[ch.choice(3, "call-cache-scope-val")]
         if self.cfg.call_options and ch.coin(self.cfg.p_call_option, "copt?"):
             opts["options"] = dict(self.cfg.call_options[ch.choice(len(self.cfg.call_options), "copt")])
         node = ("call", callee.idx, args, kwargs, opts)
